@@ -1,6 +1,6 @@
 CFG = {
     "extra_theorems": ["Xeh.LeafBridge.arith_table_matches", "Xeh.LeafBridge.arith_words_registered", "Xeh.LeafBridge.arith_words_modelled"],
-    "extra_modules": ["XehModel.Proofs.LeafBridge"],
+    "extra_modules": ["XehModel.Proofs.Tables.Arith"],
     "n_quick": 30000, "n_thorough": 1500000,
     "rule": "boundary×boundary integer pairs for every binary word, shift counts -2..130, every unary word on every boundary int/real, boundary real pairs, then random operand tuples over all operand-type combinations (one PRNG seed); a case is non-trivial when it is not a bare stack underflow; distinct = distinct request lines",
     "trusted_base_extra": ["Model/SoftFloat.lean defines IEEE-754 binary64 operations as exact-rational-then-round-to-nearest-even; it is validated against the hardware FPU (through Rust) by the correspondence on every run, not proved against an external IEEE formalisation", "NaN payloads are not modelled (NaNs compared as a class)"],
